@@ -135,20 +135,24 @@ def annotateInstance (cfg : Config) (prof : Profile) (ni : NodeInfo) : Profile :
 def seedTargets (cfg : Config) : Option (List String) :=
   if cfg.targetsFromFile then none else cfg.targets
 
+def seedCounts (cfg : Config) : Dict String Nat :=
+  match seedTargets cfg with
+  | some ts => ts.foldl (fun d c => Dict.set d c 0) []
+  | none => []
+
 def initCounts (cfg : Config) (inst : InstDict) : Dict String Nat :=
-  let c0 : Dict String Nat := match seedTargets cfg with
-    | some ts => ts.foldl (fun d c => Dict.set d c 0) []
-    | none => []
-  inst.foldl (fun d (_, cls) => cls.foldl (fun d c => Dict.upd d c fun o => o.getD 0 + 1) d) c0
+  inst.foldl (fun d e => e.2.foldl (fun d c => Dict.upd d c fun o => o.getD 0 + 1) d) (seedCounts cfg)
+
+def seedProfile (cfg : Config) : Profile :=
+  match seedTargets cfg with
+  | some ts => ts.foldl (fun d c => Dict.set d c {}) []
+  | none => []
 
 def initProfile (cfg : Config) (inst : InstDict) : Profile :=
-  let p0 : Profile := match seedTargets cfg with
-    | some ts => ts.foldl (fun d c => Dict.set d c {}) []
-    | none => []
-  inst.foldl (fun d (_, cls) => cls.foldl (fun d c => Dict.setDefault d c {}) d) p0
+  inst.foldl (fun d e => e.2.foldl (fun d c => Dict.setDefault d c {}) d) (seedProfile cfg)
 
 def build (cfg : Config) (inst : InstDict) (d : IDict) : Profile :=
-  d.foldl (fun prof (_, ni) => annotateInstance cfg prof ni) (initProfile cfg inst)
+  d.foldl (fun prof e => annotateInstance cfg prof e.2) (initProfile cfg inst)
 
 /-- `has_shape_annotated_features` -/
 def hasFeatures (cp : ClassProfile) : Bool := !cp.direct.isEmpty || !cp.inverse.isEmpty
